@@ -427,6 +427,7 @@ pub fn run(ctx: &'static Ctx) -> ! {
         infeasible.fetch_add(skipped, std::sync::atomic::Ordering::Relaxed);
     });
     ctx.set_extra("infeasible_choice_combinations_skipped", json!(infeasible.load(std::sync::atomic::Ordering::Relaxed)));
+    crate::bigfile::run(ctx);
     generic::run_family(ctx, watch, generic::Mode::Completeness);
     ctx.assume("the pretty-printer's reading of RFC 1035 s5.1 / RFC 2308 s4 / RFC 3597 s5 (see render.rs header); WKS bit maps are MSB-first (RFC 1035 s3.4.2, BIND)");
     watch.stop();
